@@ -346,3 +346,11 @@ package tsm1
 //@   at after WriteBlock#1: ghost pending = false
 //@   call WriteBlock#1 requires only_blocks_in_window: pending
 //@   loop 1 invariant no_block_in_window_dropped: !pending
+
+// ---- C02: a read of the cache overlays the hot entry on the snapshot being written, never the reverse ----
+// Values.Deduplicate keeps, for equal timestamps, the value that comes last in the buffer (stable sort, then
+// "later overwrites"): the snapshot's values (older) must therefore be copied before the hot entry's (newer).
+//@ func (*Cache).Values
+//@   props C02
+//@   nosafety
+//@   loop 1 invariant older_source_first: (snapshotEntries != nil && e != nil ==> len(entries) == 2 && entries[0] == snapshotEntries && entries[1] == e) && (snapshotEntries != nil && e == nil ==> len(entries) == 1 && entries[0] == snapshotEntries) && (snapshotEntries == nil && e != nil ==> len(entries) == 1 && entries[0] == e)
